@@ -44,7 +44,7 @@ def budget(tier):
     ex = int(os.environ.get("VERIF_EXAMPLES", "0"))
     if tier == "quick":
         return dict(shards=16, examples=ex or 2, shrink_calls=3, shard_timeout=1700, time_budget=80)
-    return dict(shards=16, examples=ex or 60, shrink_calls=30, shard_timeout=6 * 3600, time_budget=3 * 3600)
+    return dict(shards=16, examples=ex or 200, shrink_calls=30, shard_timeout=6 * 3600, time_budget=1500)
 
 
 @st.composite
